@@ -6,7 +6,7 @@ func init() {
 	register(&Def{
 		ID:          "C11",
 		Technique:   "must-pass-through (dominance) rule for the split-byte refusal, writer/reader constant agreement for header names and length, accumulation-integrity and full-read rules in the receivers, closed-edge rule for the in-memory channel",
-		Explanation: "NARROW. Decides only: (D1) in every delimiter framing's Send each write is dominated by the 'delimiter not found in msg' edge and the other edge returns an error without writing — this decides the property's last sentence outright; (D2) the header names the sender writes are, case-folded, the labels the reader switches on, the length written is Itoa(len(msg)) of the very msg appended after the blank line, in one Write; (D3) the in-memory channel's Recv returns io.EOF exactly on the closed edge; plus two necessary conditions of intact delivery under fragmentation: the delimiter receiver returns either the accumulated line or nil where the accumulation is known empty, and record bodies are read with a full-read primitive whose error is returned (a bare Read's count is never ignored). (N2) every Send transmits the caller's record itself (no library call returning a rewritten copy); buffers and tables stored into a channel value are created with it. (N3) Send and Recv of one channel type share no pointer/slice/map field. Also decided: nothing but a Recv method receives from a framing's record channel and the framings start no goroutines.",
+		Explanation: "NARROW. Decides only: (D1) in every delimiter framing's Send each write is dominated by the 'delimiter not found in msg' edge and the other edge returns an error without writing — this decides the property's last sentence outright; (D2) the header names the sender writes are, case-folded, the labels the reader switches on, the length written is Itoa(len(msg)) of the very msg appended after the blank line, in one Write; (D3) the in-memory channel's Recv returns io.EOF exactly on the closed edge; plus two necessary conditions of intact delivery under fragmentation: the delimiter receiver returns either the accumulated line or nil where the accumulation is known empty, and record bodies are read with a full-read primitive whose error is returned (a bare Read's count is never ignored). (N2) every Send transmits the caller's record itself (no library call returning a rewritten copy); buffers and tables stored into a channel value are created with it. (N3) Send and Recv of one channel type share no pointer/slice/map field. Also decided: nothing but a Recv method receives from a framing's record channel and the framings start no goroutines. Also decided: the record returned by the delimiter receiver is the accumulated line cut at most once; a framing's buffered reader/decoder is built on the stream itself or on a reader type whose Read keeps the inner byte count.",
 		NotDecided:  []string{"THE BODY OF THE PROPERTY: that successive Recv calls reproduce the records byte for byte for every fragmentation and size", "the receive-buffer regrow/shrink arithmetic in the header framing", "bufio continuation semantics", "the RawJSON stream decoder (encoding/json)"},
 		Assumptions: []string{"bufio.Reader.ReadSlice / io.ReadFull / io.CopyN contracts"},
 		RuleText:    ruleText,
@@ -31,7 +31,7 @@ func init() {
 	register(&Def{
 		ID:          "C12",
 		Technique:   "taint from numeric parsers to allocation sizes and slice bounds with dominating bound checks, API-contract rule for bufio.ReadSlice, predicate tables for header names, content-type policy and the reader's data-with-EOF acceptance",
-		Explanation: "Decides: (D1) a length parsed from the stream reaches an allocation size only under a non-negative check and a constant upper bound, and a slice bound only under a non-negative check on the value of its final integer type; (D2) the length is parsed only when the header is present and a parse failure is an error; (D3) the delimiter receiver drops the final byte only on the err == nil edge of ReadSlice, and returns no data only where nothing was accumulated; (D4) header names are compared case-folded against lower-case labels; (D5) the strict receiver builds the mismatch error exactly on got != want and returns it with the payload, the lenient wrapper clears it exactly for an absent type; (D6) bodies are read with full-read primitives whose error is returned, and the server's reader parses data accompanied by an error only for io.EOF with non-empty data. (D7) a record the reader decided to parse cannot reach the receive-failure stop. (D8) a receiver that wraps another receiver returns the inner receiver's record on every path; ReadLine's isPrefix result is never dropped. Also decided: the delimiter receiver accumulates a record in a buffer local to the receiving call; the length is parsed in base 10.",
+		Explanation: "Decides: (D1) a length parsed from the stream reaches an allocation size only under a non-negative check and a constant upper bound, and a slice bound only under a non-negative check on the value of its final integer type; (D2) the length is parsed only when the header is present and a parse failure is an error; (D3) the delimiter receiver drops the final byte only on the err == nil edge of ReadSlice, and returns no data only where nothing was accumulated; (D4) header names are compared case-folded against lower-case labels; (D5) the strict receiver builds the mismatch error exactly on got != want and returns it with the payload, the lenient wrapper clears it exactly for an absent type; (D6) bodies are read with full-read primitives whose error is returned, and the server's reader parses data accompanied by an error only for io.EOF with non-empty data. (D7) a record the reader decided to parse cannot reach the receive-failure stop. (D8) a receiver that wraps another receiver returns the inner receiver's record on every path; ReadLine's isPrefix result is never dropped. Also decided: the delimiter receiver accumulates a record in a buffer local to the receiving call; the length is parsed in base 10. Also decided: the record returned by the delimiter receiver is the accumulated line cut at most once; a framing's buffered reader/decoder is built on the stream itself or on a reader type whose Read keeps the inner byte count.",
 		NotDecided:  []string{"termination", "never fabricates/reorders as a whole", "keeps failing after exhaustion", "everything about RawJSON (delegated to encoding/json)"},
 		Assumptions: []string{"bufio / io / strconv contracts"},
 		RuleText:    ruleText,
